@@ -142,3 +142,8 @@ MUTANTS = [
     dict(name="negative_infinity_coerced_to_positive", file=DE, **{"from": "Inner::String(v) if v == \"-Infinity\" => visitor.visit_f64(f64::NEG_INFINITY)", "to": "Inner::String(v) if v == \"-Infinity\" => visitor.visit_f64(f64::INFINITY)"},
          expect=["C13.K.coerce.neg_infinity"]),
 ]
+
+BENIGN = [
+    dict(name="deserialize_any_arms_reordered", file=DE, **{"from": "            Inner::Null => visitor.visit_unit(),\n            Inner::Bool(v) => visitor.visit_bool(v),", "to": "            Inner::Bool(v) => visitor.visit_bool(v),\n            Inner::Null => visitor.visit_unit(),"}),
+    dict(name="serialize_element_local_renamed", file=SER, **{"from": "        let value = Any::new(value)?;\n        self.0.push(value);\n        Ok(())\n    }\n\n    #[inline]\n    fn end(self) -> Result<Self::Ok, Self::Error> {\n        Ok(Any(Inner::Seq(self.0)))", "to": "        let element = Any::new(value)?;\n        self.0.push(element);\n        Ok(())\n    }\n\n    #[inline]\n    fn end(self) -> Result<Self::Ok, Self::Error> {\n        Ok(Any(Inner::Seq(self.0)))"}),
+]
